@@ -19,13 +19,14 @@ where
     R: VecZnxToMut,
 {
     let mut res: VecZnx<&mut [u8]> = res.to_mut();
-    assert!(
-        (noise_infos.bound.log2().ceil() as i64) < 64,
-        "invalid bound: ceil(log2(bound))={} > 63",
-        (noise_infos.bound.log2().ceil() as i64)
-    );
-
     let (limb, scale) = noise_infos.target_limb_and_scale(base2k);
+
+    // The samples are truncated at `bound * scale` and stored as i64: that is the magnitude that has to fit.
+    assert!(
+        ((noise_infos.bound * scale).log2().ceil() as i64) < 64,
+        "invalid bound: ceil(log2(bound * scale))={} > 63",
+        ((noise_infos.bound * scale).log2().ceil() as i64)
+    );
 
     // The noise lives in one limb: the rest of the selected column is zero, not whatever it held before.
     for j in 0..res.size() {
@@ -47,13 +48,14 @@ where
     R: VecZnxToMut,
 {
     let mut res: VecZnx<&mut [u8]> = res.to_mut();
-    assert!(
-        (noise_infos.bound.log2().ceil() as i64) < 64,
-        "invalid bound: ceil(log2(bound))={} > 63",
-        (noise_infos.bound.log2().ceil() as i64)
-    );
-
     let (limb, scale) = noise_infos.target_limb_and_scale(base2k);
+
+    // The samples are truncated at `bound * scale` and stored as i64: that is the magnitude that has to fit.
+    assert!(
+        ((noise_infos.bound * scale).log2().ceil() as i64) < 64,
+        "invalid bound: ceil(log2(bound * scale))={} > 63",
+        ((noise_infos.bound * scale).log2().ceil() as i64)
+    );
     znx_add_normal_f64_ref(
         res.at_mut(res_col, limb),
         noise_infos.sigma * scale,
